@@ -23,13 +23,15 @@ def describe(tier):
                 "format_constraint_evaluation (4 FCs with distinct answers and messages), H3 evaluate_ahb_expression_tree (2-3 modal mark parts "
                 "incl. a bare indicator; mixed plain/awaitable list), H4 expand_packages (4 occurrences, two of the same key; and a missing "
                 "package), H5 2-3 concurrent evaluations as tasks each with its own context-local data (also through the library's "
-                "ContentEvaluationResult-based evaluators), H6 is_valid_expression with a ContextVar setter (valid and invalid expression), H9 = H1/H3 with a synchronous hints provider, H7 "
+                "ContentEvaluationResult-based evaluators), H8 the same with packages in each evaluation's own content evaluation result (same package keys, other expressions), H10 one token logic provider "
+                "serving two format versions with different evaluators / hints / packages and concurrent evaluations carrying different versions, H3 also with parts that raise "
+                "InvalidExpressionError (same exception class in every order), H6 is_valid_expression with a ContextVar setter (valid and invalid expression), H9 = H1/H3 with a synchronous hints provider, H7 "
                 "every assignment of the evaluator kinds {sync, async-immediate, async-yield-once, async-yield-twice} to 3 keys. For every "
                 "harness ALL completion orders of the pending awaitables at quiescent points are enumerated depth-first on a virtual event "
                 f"loop (H3-large / H6-large: <= {b['large_order_bound']} deviations from oldest-first), plus <= {b['early']} early/batched "
                 "completion per schedule for harnesses with <= 400 plain orders. Oracle: the observed result of every schedule equals the zero-yield baseline of the same harness "
-                "(exactly one distinct outcome); a missing package raises NotImplementedError in every order; concurrent evaluations equal "
-                "their solo results. Non-trivial = schedules that deviate from oldest-first completion.",
+                "(exactly one distinct outcome); a missing package raises NotImplementedError in every order; concurrent evaluations (H5, H8, H10) equal "
+                "their solo results (each evaluation run alone with fresh evaluators). Non-trivial = schedules that deviate from oldest-first completion.",
         "bounds": b,
         "exhaustive": True,
         "assumptions": ["the only scheduling nondeterminism asyncio exposes to this library is the completion order / iteration of the "
@@ -123,7 +125,9 @@ def h2(params, zero):
 
 
 H3_EXPRS = ["Muss [1][901] Soll [2] U [502] Kann", "Muss [2] U [501] Soll [1][902]", "Muss [3] Soll [2][901] Kann [1] U [501][902]",
-            "X [1] U [2][901] U [501]"]
+            "X [1] U [2][901] U [501]",
+            # parts that raise InvalidExpressionError (first / last / middle): the same exception class in every order
+            "Muss [1] Kann [2] O [501]", "Muss [2] X [501] Soll [1] U [3]", "Muss [1] U [3] Soll [2] O [501] Kann [3][901]"]
 
 
 def h3(params, zero):
@@ -192,12 +196,25 @@ def h5(params, zero):
 
         async def main():
             loop = asyncio.get_running_loop()
-            tasks = [loop.create_task(one(i), context=contextvars.copy_context()) for i in range(n)]
-            return list(await asyncio.gather(*tasks))
+            tasks = [loop.create_task(one(i), context=contextvars.copy_context()) for i in _which(params, n)]
+            return _results(await asyncio.gather(*tasks, return_exceptions=True))
 
         return main()
 
     return factory
+
+
+def _results(results):
+    """results of concurrent evaluations; an evaluation that raised is observed as its exception class"""
+    for x in results:
+        if isinstance(x, BaseException) and not isinstance(x, Exception) and type(x).__name__ != "InvalidExpressionError":
+            raise x
+    return [["exception", type(x).__name__] if isinstance(x, BaseException) else x for x in results]
+
+
+def _which(params, n):
+    """the concurrent evaluations a harness starts: all n, or only one of them (solo run for the oracle)"""
+    return range(n) if params.get("only") is None else [params["only"]]
 
 
 def h6(params, zero):
@@ -246,6 +263,9 @@ def h7(params, zero):
     return factory
 
 
+H8_PACKAGES = [{"1P": "[1] O [2]", "2P": "[1]"}, {"1P": "[2] X [1]", "2P": "[2] U [1]"}, {"1P": "[2]", "2P": "[1] O [2]"}]
+
+
 def h8(params, zero):
     """the library's own ContentEvaluationResult-based evaluators (inject provider evaluated per call inside each task's
     context): two concurrent evaluations with different content evaluation results for the same keys"""
@@ -256,7 +276,7 @@ def h8(params, zero):
     import inject
 
     n = params["n"]
-    expr = "Muss [1] U [501] Soll [2][901]"
+    expr = "Muss [1] U [501] Soll [2][901]" if not params.get("pk") else "Muss [1] U [1P] U [501] Soll [2][901] U [2P]"
     var = contextvars.ContextVar("cer_body", default=None)
     bodies = []
     for i in range(n):
@@ -264,7 +284,10 @@ def h8(params, zero):
             hints={"501": f"Hinweis von {i}"},
             format_constraints={"901": _I.EvaluatedFormatConstraint(format_constraint_fulfilled=i % 2 == 0,
                                                                     error_message=None if i % 2 == 0 else f"msg {i}")},
-            requirement_constraints={"1": _I.STATE[PERMS[(params["perm"] + i) % 6][0]], "2": _I.STATE[PERMS[(params["perm"] + i) % 6][1]]},
+            requirement_constraints={"1": _I.STATE[PERMS[(params["perm"] + i) % 6][0]], "2": _I.STATE[PERMS[(params["perm"] + i) % 6][1]]}
+            if not params.get("pk") else dict(zip("12", (_I.STATE[x] for x in ["FU", "UF", "FF", "UU"][(params["perm"] + i) % 4]))),
+            # the same package keys with other expressions in every evaluation's own content evaluation result
+            packages=H8_PACKAGES[i % len(H8_PACKAGES)] if params.get("pk") else None,
         )
         bodies.append(ContentEvaluationResultSchema().dump(cer))
 
@@ -282,17 +305,17 @@ def h8(params, zero):
             var.set(bodies[i])
             if not zero:
                 await sched.point(f"e{i}/start")
-            tree = await _I.parse_expression_including_unresolved_subexpressions(expr)
+            tree = await _I.parse_expression_including_unresolved_subexpressions(expr, resolve_packages=bool(params.get("pk")))
             if not zero:
                 await sched.point(f"e{i}/parsed")
-            return _ahb_obs(await _I.evaluate_ahb_expression_tree(tree))
+            return _ahb_obs(await _I.evaluate_ahb_expression_tree(tree)) + ([repr(_I.tree_to_tuple(tree))] if params.get("pk") else [])
 
         async def main():
             inject.clear_and_configure(configure)
             try:
                 loop = asyncio.get_running_loop()
-                tasks = [loop.create_task(one(i), context=contextvars.copy_context()) for i in range(n)]
-                return list(await asyncio.gather(*tasks))
+                tasks = [loop.create_task(one(i), context=contextvars.copy_context()) for i in _which(params, n)]
+                return _results(await asyncio.gather(*tasks, return_exceptions=True))
             finally:
                 _I._configured = False
                 _I.setup()
@@ -319,7 +342,93 @@ def h9(params, zero):
     return factory
 
 
-HARNESS = {"H1": h1, "H2": h2, "H3": h3, "H4": h4, "H5": h5, "H6": h6, "H7": h7, "H8": h8, "H9": h9}
+def h10(params, zero):
+    """ONE token logic provider that serves two format versions of the same format with different evaluators / hints / packages;
+    concurrent evaluations carry different format versions in their context-local evaluatable data"""
+    from efoli import EdifactFormatVersion
+
+    from ahbicht.content_evaluation.evaluationdatatypes import EvaluatableData, EvaluatableDataProvider, EvaluationContext
+    from ahbicht.content_evaluation.fc_evaluators import FcEvaluator
+    from ahbicht.content_evaluation.rc_evaluators import RcEvaluator
+    from ahbicht.content_evaluation.token_logic_provider import SingletonTokenLogicProvider, TokenLogicProvider
+    from ahbicht.expressions.hints_provider import DictBasedHintsProvider
+    from ahbicht.expressions.package_expansion import DictBasedPackageResolver
+    import inject
+
+    versions = [EdifactFormatVersion.FV2104, EdifactFormatVersion.FV2210]
+    assign = params["versions"]  # evaluation i carries versions[assign[i]]
+    n = len(assign)
+    expr = "Muss [1][901] U [501] Soll [2][901] U [1P]"
+    who = contextvars.ContextVar("h10_task", default=None)
+
+    def factory(sched):
+        async def point(what):
+            if not zero:
+                await sched.point(f"e{who.get()}/{what}")
+
+        def make(v):
+            tag = f"v{v}"
+
+            class Rc(RcEvaluator):
+                edifact_format = _I.FMT
+                edifact_format_version = versions[v]
+
+                def _get_default_context(self):
+                    return EvaluationContext(scope=None)
+
+                async def evaluate_1(self, evaluatable_data, context):
+                    await point(f"rc:1@{tag}")
+                    return _I.STATE["F" if v == 0 else "U"]
+
+                async def evaluate_2(self, evaluatable_data, context):
+                    await point(f"rc:2@{tag}")
+                    return _I.STATE["U" if v == 0 else "F"]
+
+            class Fc(FcEvaluator):
+                edifact_format = _I.FMT
+                edifact_format_version = versions[v]
+
+                async def evaluate_901(self, entered_input):
+                    await point(f"fc:901@{tag}")
+                    return _I.EvaluatedFormatConstraint(format_constraint_fulfilled=v == 0, error_message=None if v == 0 else f"msg {tag}")
+
+            hp = DictBasedHintsProvider({"501": f"Hinweis {tag}"})
+            pr = DictBasedPackageResolver({"1P": "[1]" if v == 0 else "[2]"})
+            for x in (hp, pr):
+                x.edifact_format, x.edifact_format_version = _I.FMT, versions[v]
+            return [Rc(), Fc(), hp, pr]
+
+        provider = SingletonTokenLogicProvider(make(0) + make(1))
+        version_of = contextvars.ContextVar("h10_version", default=None)
+
+        def configure(binder):
+            binder.bind(TokenLogicProvider, provider)
+            binder.bind_to_provider(EvaluatableDataProvider,
+                                    lambda: EvaluatableData(body=None, edifact_format=_I.FMT, edifact_format_version=version_of.get()))
+
+        async def one(i):
+            who.set(i)
+            version_of.set(versions[assign[i]])
+            await point("start")
+            tree = await _I.parse_expression_including_unresolved_subexpressions(expr, resolve_packages=True)
+            return _ahb_obs(await _I.evaluate_ahb_expression_tree(tree)) + [repr(_I.tree_to_tuple(tree))]
+
+        async def main():
+            inject.clear_and_configure(configure)
+            try:
+                loop = asyncio.get_running_loop()
+                tasks = [loop.create_task(one(i), context=contextvars.copy_context()) for i in _which(params, n)]
+                return _results(await asyncio.gather(*tasks, return_exceptions=True))
+            finally:
+                _I._configured = False
+                _I.setup()
+
+        return main()
+
+    return factory
+
+
+HARNESS = {"H10": h10, "H1": h1, "H2": h2, "H3": h3, "H4": h4, "H5": h5, "H6": h6, "H7": h7, "H8": h8, "H9": h9}
 
 
 def plan(tier, seed):
@@ -355,6 +464,11 @@ def plan(tier, seed):
         add("H7", {"kinds": list(kinds)})
     for perm in (0, 3):
         add("H8", {"n": 2, "perm": perm})
+    add("H8", {"n": 2, "perm": 1, "pk": True})
+    add("H8", {"n": 3, "perm": 2, "pk": True}, order_bound=b["large_order_bound"])
+    for assign in ([0, 1], [1, 0]):
+        add("H10", {"versions": assign})
+    add("H10", {"versions": [0, 1, 0]}, order_bound=b["large_order_bound"])
     for perm in (0, 2, 5):
         for e in range(3):
             add("H9", {"base": "H1", "perm": perm, "expr": e})
@@ -403,10 +517,33 @@ def _baseline(item):
     return _observe(ex)
 
 
+SOLO = {"H5": lambda p: p["n"], "H8": lambda p: p["n"], "H10": lambda p: len(p["versions"])}
+
+
+def _solo_violations(item, base):
+    """concurrent evaluations equal their SOLO results: evaluation i alone (fresh evaluators, nothing else running)"""
+    if item["h"] not in SOLO:
+        return []
+    out = []
+    got = json.loads(base)
+    for i in range(SOLO[item["h"]](item["params"])):
+        solo = json.loads(_baseline({"h": item["h"], "params": dict(item["params"], only=i)}))
+        if got[0] == "exception" or solo[0] == "exception":
+            out.append((i, solo, got))  # the harness main itself must not raise
+        elif got[i] != solo[0]:
+            out.append((i, solo[0], got[i]))
+        elif got[i][0] == "exception" and (item["h"] == "H10" or item["params"].get("pk")):
+            out.append((i, "a result (these harnesses are built so that every evaluation has a determined outcome)", got[i]))
+    return out
+
+
 def run_item(item):
     worker_init()
     r = Result()
     base = _baseline(item)
+    for i, solo, got in _solo_violations(item, base):
+        r.violation("concurrent-differs-from-solo", {"h": item["h"], "params": item["params"], "choices": [], "solo": i}, solo, got,
+                    f"{item['h']} {item['params']}: evaluation {i} run together with the others (zero-yield schedule) differs from its solo run")
     exp = vloop.explore(HARNESS[item["h"]](item["params"], False), _observe, order_bound=item["order_bound"], early_bound=0)
     if item["early"] and exp.schedules <= 400:
         # one early / batched completion per schedule on top of all orders - only where the order space itself is small
@@ -448,6 +585,8 @@ def replay(case):
     ex = vloop.run_schedule(HARNESS[case["h"]](case["params"], False), case["choices"])
     out = _observe(ex)
     vs = []
+    for i, solo, got in _solo_violations(item, base):
+        vs.append({"kind": "concurrent-differs-from-solo", "case": case, "expected": solo, "observed": got})
     pairing = _h4_pairing_violation(item, base)
     if pairing:
         vs.append({"kind": "occurrence-paired-with-wrong-value", "case": case, "expected": pairing[0], "observed": pairing[1]})
